@@ -286,21 +286,78 @@ def build_acc(a):
     raise ValueError(a)
 
 
-def build_chain(ch, pairs, acc=None):
-    """Fresh real elements (pre, acc, post) for a chain descriptor."""
+def make_value(i, fk):
+    """Flow value number i of a flow kind of FillSem.FlowOf: bare | pairs | ctx (odd values carry the key "odd")."""
+    if fk == "bare":
+        return i
+    if fk == "pairs":
+        return (i, {})
+    return (i, {"odd": 1} if i % 2 == 1 else {})
+
+
+def _has_key(k):
+    def has_key(v):
+        import lena.flow
+        return k in lena.flow.get_context(v)
+    return has_key
+
+
+def build_stage2(st, fk):
+    """Real element for a stage of the extended vocabulary (context-dependent selectors), else flowlib's."""
+    import lena.flow
     from . import flowlib
-    pre = [flowlib.build_stage(st, pairs) for st in ch["pre"]]
-    post = [flowlib.build_stage(st, pairs) for st in ch["post"]]
+    if st["t"] == "cfilter":
+        return lena.flow.Filter(st["k"] if st["form"] == "str" else _has_key(st["k"]))
+    if st["t"] == "crunif":
+        inner = lena.flow.Filter(lambda v: False) if st["f"] == "drop" else flowlib._map_callable(st["f"])
+        return lena.flow.RunIf(st["k"], inner)
+    return flowlib.build_stage(st, fk != "bare")
+
+
+def build_chain(ch, fk, acc=None):
+    """Fresh real elements (pre, acc, post) for a chain descriptor."""
+    pre = [build_stage2(st, fk) for st in ch["pre"]]
+    post = [build_stage2(st, fk) for st in ch["post"]]
     return pre, (acc if acc is not None else build_acc(ch["acc"])), post
 
 
-def drive_chain(ch, n_values, pairs, drv, bs=None, acc=None, copy_buf=True, form="tuple"):
-    """Run one driver on fresh elements; returns the list of real results (exceptions propagate)."""
+class MarkAcc(object):
+    """Accumulator of a sibling branch: its result is recognisable."""
+
+    def __init__(self, j):
+        self.j, self.n = j, 0
+
+    def fill(self, v):
+        self.n += 1
+
+    def compute(self):
+        yield ("SIB", self.j, self.n)
+
+
+def is_sibling_result(v):
+    return isinstance(v, tuple) and len(v) == 3 and v[0] == "SIB"
+
+
+def _sib_map(v):
+    return ("SIB", 2, 0)
+
+
+def siblings(variant=0):
+    """Sibling branches A (changes the context of its values in place: a Variable) and B (ordinary)."""
+    import lena.variables
+    a = (lena.variables.Variable("sib", lambda d: d), MarkAcc(1))
+    b = _sib_map if variant % 2 == 0 else (MarkAcc(2),)
+    return a, b
+
+
+def drive_chain(ch, n_values, fk, drv, bs=None, acc=None, copy_buf=True, form="tuple", place="alone"):
+    """Run one driver on fresh elements; returns the list of real results of the chain (exceptions propagate).
+
+    place != "alone": the chain is a branch of a Split next to sibling branches; their results are removed."""
     import lena.core
-    from . import flowlib
-    pre, a, post = build_chain(ch, pairs, acc)
+    pre, a, post = build_chain(ch, fk, acc)
     els = pre + [a] + post
-    flow = iter([flowlib.make_value(i, pairs) for i in range(n_values)])
+    flow = iter([make_value(i, fk) for i in range(n_values)])
     if drv == "run":
         return list(lena.core.Sequence(*els).run(flow))
     if drv == "split":
@@ -310,8 +367,13 @@ def drive_chain(ch, n_values, pairs, drv, bs=None, acc=None, copy_buf=True, form
             branch = lena.core.FillComputeSeq(*els)
         else:
             raise ValueError(form)
-        s = lena.core.Split([branch], bufsize=None if bs == NONE else bs, copy_buf=copy_buf)
-        return list(s.run(flow))
+        if place == "alone":
+            branches = [branch]
+        else:
+            sa, sb = siblings(n_values)
+            branches = {"first": [branch, sa, sb], "middle": [sa, branch, sb], "last": [sa, sb, branch]}[place]
+        s = lena.core.Split(branches, bufsize=None if bs == NONE else bs, copy_buf=copy_buf)
+        return [v for v in s.run(flow) if not is_sibling_result(v)]
     if drv == "fill_compute_seq":
         s = lena.core.FillComputeSeq(*els)
         for v in flow:
@@ -342,6 +404,10 @@ def chain_key(ch):
             return "slice(%s,%s,%s)" % (st["a"], "None" if st["b"] == NONE else st["b"], st["s"])
         if t == "runif":
             return "runif(%s,%s)" % (st["p"], st["f"])
+        if t == "cfilter":
+            return "filter-ctx-%s-%s" % (st["k"], st["form"])
+        if t == "crunif":
+            return "runif-ctx(%s,%s)" % (st["k"], st["f"])
         return t
     return "%s|%s|%s" % ("+".join(one(s) for s in ch["pre"]), ch["acc"], "+".join(one(s) for s in ch["post"]))
 
